@@ -258,7 +258,7 @@ fn scenario(ctx: &Ctx, case: u64, out: &mut Out) {
         }
     }
     out.class_counter(&format!("kind:{}|jitter{}", kind, jitter));
-    if out.samples.len() < 3 && case % 7 == 3 {
+    if out.samples.len() < 3 && (case % 7 == 3 || out.samples.is_empty()) {
         out.sample(json!({"case": case, "kind": kind, "interval_ms": interval, "jitter": jitter, "dead_entry_bytes": dead_len, "trigger_dead_bytes": if conf.trig_dead == u64::MAX { json!("max") } else { json!(conf.trig_dead) }, "trigger_fragmentation": conf.trig_frag}));
     }
     st.close();
